@@ -20,7 +20,7 @@ var rawFuncs = map[string]struct {
 	"runecount": {"str_runecount", SInt}, "strlt": {"str_lt", SBool},
 	"typeof": {"typeof", SInt}, "kind": {"kind", SInt}, "kindof": {"kindof", SInt},
 	"pl_int": {"pl_int", SInt}, "pl_bool": {"pl_bool", SBool}, "pl_str": {"pl_str", SStr}, "pl_flt": {"pl_flt", SFlt},
-	"pl_len": {"pl_len", SInt}, "pl_elem": {"pl_elem", SVal}, "pl_ptr": {"pl_ptr", SInt}, "pl_deref": {"pl_deref", SVal}, "pl_mhas": {"pl_mhas", SBool}, "pl_mget": {"pl_mget", SVal}, "tassignable": {"tassignable", SBool}, "tnumin": {"tnumin", SInt}, "sprint1": {"sprint1", SStr}, "tvariadic": {"tvariadic", SBool}, "tin": {"tin", SInt},
+	"pl_len": {"pl_len", SInt}, "pl_elem": {"pl_elem", SVal}, "pl_ptr": {"pl_ptr", SInt}, "pl_deref": {"pl_deref", SVal}, "pl_mhas": {"pl_mhas", SBool}, "pl_mget": {"pl_mget", SVal}, "tassignable": {"tassignable", SBool}, "tnumin": {"tnumin", SInt}, "sprint1": {"sprint1", SStr}, "sprintf5": {"sprintf5", SStr}, "requote": {"requote", SStr}, "unquote": {"unquote", SStr}, "tokdelim": {"tokdelim", SStr}, "tvariadic": {"tvariadic", SBool}, "tin": {"tin", SInt},
 	"tcomparable": {"tcomparable", SBool}, "telem": {"telem", SInt}, "tkey": {"tkey", SInt},
 	"i2f": {"i2f", SFlt}, "f2i": {"f2i", SInt}, "fadd": {"f_add", SFlt}, "fsub": {"f_sub", SFlt}, "fmul": {"f_mul", SFlt},
 	"fdiv": {"f_div", SFlt}, "flt": {"f_lt", SBool}, "feq": {"f_eq", SBool}, "isnan": {"f_isnan", SBool},
@@ -325,6 +325,45 @@ func (c *SpecCtx) call(e *ast.CallExpr) TT {
 				}
 			}
 			c.failf("visited(): no map iteration in scope")
+		case "addr":
+			// addr(x.f): the identity of the address of field f of the heap object x
+			if len(e.Args) == 3 {
+				// addr(p, T, f): p is an object reference (Int) of struct type T
+				base := c.tr(e.Args[0])
+				ty := c.resolveType(e.Args[1])
+				fid, _ := e.Args[2].(*ast.Ident)
+				if st := structOf(ty); st != nil && fid != nil {
+					for i := 0; i < st.NumFields(); i++ {
+						if st.Field(i).Name() == fid.Name {
+							return TT{T: c.ex.fieldAddrTerm(base.T, ty, i), Ty: types.NewPointer(st.Field(i).Type())}
+						}
+					}
+				}
+				c.failf("addr(p, T, f): bad struct type or field")
+			}
+			se, ok := e.Args[0].(*ast.SelectorExpr)
+			if !ok {
+				c.failf("addr() expects a field selection")
+			}
+			x := c.tr(se.X)
+			pt, ok := types.Unalias(x.Ty).Underlying().(*types.Pointer)
+			if !ok {
+				c.failf("addr(): %s is not a pointer to a struct", exprString(se.X))
+			}
+			st := structOf(pt.Elem())
+			if st == nil {
+				c.failf("addr(): not a struct")
+			}
+			for i := 0; i < st.NumFields(); i++ {
+				if st.Field(i).Name() == se.Sel.Name {
+					base := x.T
+					if base.IsZero() && x.P != nil {
+						base = c.ptrTerm(x.P)
+					}
+					return TT{T: c.ex.fieldAddrTerm(base, pt.Elem(), i), Ty: types.NewPointer(st.Field(i).Type())}
+				}
+			}
+			c.failf("addr(): no field %s", se.Sel.Name)
 		case "nvisited":
 			// nvisited(): number of keys produced so far by the (single) map iteration in scope
 			for name, g := range c.st.ghosts {
